@@ -1,6 +1,6 @@
 ------------------------------ MODULE MC_Names ------------------------------
 EXTENDS Names, Json
-MC_Vars == { << "HH", "F" >>, << "GOV", "T" >>, << "GOOD", "SUP_GOOD" >> }
+MC_Vars == { << "HH", "F" >>, << "BUS", "F" >>, << "GOV", "T" >>, << "GOOD", "SUP_GOOD" >> }
 MC_Places == {"sector_eq", "term", "supplier_rule", "global"}
-Emit == (phase = "final") => PrintT(<< "BEH", ToJson([requests |-> embedded]) >>)
+Emit == (phase = "final") => PrintT(<< "BEH", ToJson([requests |-> asked]) >>)
 =============================================================================
